@@ -84,30 +84,35 @@ Forms(fs, n) ==
   \cup (IF n = P /\ Wide THEN { <<W, Abs(Append(LNK, ".."))>>, <<W, Rel(<<"lnk", "..">>)>> } ELSE {})
 
 CeilLists ==
-  { <<A(n)>> : n \in { Parent(W), W, P, Q, S, M, W \o <<"nonexistent">> } }
-  \cup { <<AT(P)>>, <<AT(Q)>>, <<E, A(P)>>, <<E, A(Q)>>, <<E, AT(Q)>>, <<R(<<"p">>)>>, <<A(LNK)>>, <<E, A(LNK)>>,
-         <<A(W), A(Q)>>, <<A(Q), A(W)>>, <<A(P), A(M)>>, <<A(LNK), E, A(P)>> }
-  \cup (IF Wide THEN { <<AT(LNK)>>, <<A(P \o <<"q", "..">>)>>, <<E, A(P \o <<"q", "..">>)>>, <<R(<<"p">>), A(Q)>>,
+  { <<A(n)>> : n \in { Parent(W), W, P, Q } }
+  \cup { <<AT(Q)>>, <<E, A(P)>>, <<E, AT(Q)>>, <<R(<<"p">>)>>, <<A(LNK)>>, <<E, A(LNK)>>, <<A(W), A(Q)>>, <<A(P), A(M)>> }
+  \cup (IF Wide THEN { <<A(S)>>, <<A(M)>>, <<A(W \o <<"nonexistent">>)>>, <<AT(P)>>, <<E, A(Q)>>, <<A(Q), A(W)>>, <<A(LNK), E, A(P)>>,
+                       <<AT(LNK)>>, <<A(P \o <<"q", "..">>)>>, <<E, A(P \o <<"q", "..">>)>>, <<R(<<"p">>), A(Q)>>,
                        <<E, R(<<"p">>), A(P)>>, <<A(<<>>)>> } ELSE {})
 
+\* ceilings only matter below them: they are combined with the start directories below P (all, when Wide)
 Queries(fs) ==
   UNION { { [cwd |-> f[1], start |-> f[2], ceil |-> <<>>] : f \in Forms(fs, n) }
-          \cup { [cwd |-> W, start |-> Abs(n), ceil |-> c] : c \in CeilLists }
-          \cup { [cwd |-> n, start |-> Rel(<<".">>), ceil |-> c] : c \in { <<A(P)>>, <<A(Q)>> } }
+          \cup (IF Wide \/ IsPrefix(P, n)
+                THEN { [cwd |-> W, start |-> Abs(n), ceil |-> c] : c \in CeilLists }
+                     \cup { [cwd |-> n, start |-> Rel(<<".">>), ceil |-> c] : c \in { <<A(P)>>, <<A(Q)>> } }
+                ELSE { [cwd |-> W, start |-> Abs(n), ceil |-> <<A(W)>>] })
         : n \in StartDirs(fs) }
 
+B(i, s, d) == [incl |-> i, skip |-> s, dotgit |-> d]
 Answer(fs, q) ==
-  LET r == Discover(fs, q.cwd, q.start, q.ceil, FALSE, FALSE) IN
+  LET r == Discover(fs, q.cwd, q.start, q.ceil, NoBugs) IN
   [cwd |-> q.cwd, start |-> q.start, ceil |-> q.ceil,
    found |-> r.found, fatal |-> r.fatal, how |-> r.how, gitdir |-> r.gitdir,
    git_worktree |-> GitWorktree(r), gix_worktree |-> GixWorktree(fs, r),
    gitdir_ok |-> (r.found => IsGitDir(fs, r.gitdir)),
-   noceil |-> Discover(fs, q.cwd, q.start, <<>>, FALSE, FALSE).gitdir,
+   noceil |-> Discover(fs, q.cwd, q.start, <<>>, NoBugs).gitdir,
    \* the answers of the named defective designs, for classifying a disagreement
-   bug_ceil_inclusive |-> Discover(fs, q.cwd, q.start, q.ceil, TRUE, FALSE).gitdir,
-   bug_skip_gitfile |-> Discover(fs, q.cwd, q.start, q.ceil, FALSE, TRUE).gitdir,
-   bug_both |-> Discover(fs, q.cwd, q.start, q.ceil, TRUE, TRUE).gitdir,
-   bug_lexical |-> DiscoverLexical(fs, q.cwd, q.start, q.ceil).gitdir]
+   bugs |-> [ceiling_directory_examined |-> Discover(fs, q.cwd, q.start, q.ceil, B(TRUE, FALSE, FALSE)).gitdir,
+             unusable_gitfile_skipped |-> Discover(fs, q.cwd, q.start, q.ceil, B(FALSE, TRUE, FALSE)).gitdir,
+             ceiling_and_gitfile |-> Discover(fs, q.cwd, q.start, q.ceil, B(TRUE, TRUE, FALSE)).gitdir,
+             dotgit_start_skips_level |-> Discover(fs, q.cwd, q.start, q.ceil, B(TRUE, TRUE, TRUE)).gitdir,
+             lexical_start |-> DiscoverLexical(fs, q.cwd, q.start, q.ceil, B(TRUE, TRUE, FALSE)).gitdir]]
 
 VARIABLES kp, kq, fsv, ans, done
 vars == <<kp, kq, fsv, ans, done>>
